@@ -3,6 +3,7 @@ import json, time
 from fractions import Fraction as F
 from core import build, unitgen as G, units_ref as R, boundary, exact
 from core.driver import Driver, DriverDied, DriverTimeout
+from core import multi
 from core.run import Acc, finish, rng_for, run_shards, NCPU
 
 PID = "C02"
@@ -228,6 +229,9 @@ def shard(p):
                     acc.violate("c02:wrong-unit:%s:%s" % (op, kind), "%r came back in unit %s instead of %s" % (q, got_parts, want_parts), case)
                     continue
                 acc.sample({"query": q, "si_value": str(got_v), "unit": got_parts}, cap=1)
+        # several expressions in one query string: each gives what it gives alone, also right after a refused combination
+        qs = [r["q"] for r in reqs]
+        multi.stage(acc, d, rng.sample(qs, min(len(qs), 400)), rng, max(50, p["n"] // 3), PID, p["kind"])
     finally:
         d.close()
     return acc
